@@ -263,6 +263,8 @@ def saturation(data, max_voltage, v_per_sec=1e-8, fs=30_000, proportion=0.2, mut
     # apply a cosine taper to the saturation to create a mute function
     win = scipy.signal.windows.cosine(mute_window_samples)
     mute = np.maximum(0, 1 - scipy.signal.convolve(saturation, win, mode='same'))
+    # a window with an even number of samples has no unit centre tap: saturated samples are muted explicitly
+    mute[saturation] = 0
     return saturation, mute
 
 
